@@ -30,7 +30,7 @@ type faultKind struct {
 	elem  func(el map[string]interface{}) (map[string]interface{}, bool)
 	// nodeOnly: applies only to answers of node(id: $id) lookups
 	nodeOnly bool
-	arr   func(arr []interface{}) ([]interface{}, bool)
+	arr      func(arr []interface{}) ([]interface{}, bool)
 }
 
 // walkJSON visits every (parent map, key) pair depth-first in sorted key order.
